@@ -99,6 +99,15 @@ class Parser:
         """Create a syntax error at current position."""
         return JSSyntaxError(message, self.current.line, self.current.column)
 
+    def _require_reference(self, target: Node, message: str) -> None:
+        """Assignment and update need a variable or property reference.
+
+        Called with the operator as the current token, which is where the
+        error is reported.
+        """
+        if not isinstance(target, (Identifier, MemberExpression)):
+            raise self._error(message)
+
     def _loc(self, node: Node, token: Optional[Token] = None) -> Node:
         """Set source location on a node and return it."""
         t = token or self.previous or self.current
@@ -653,6 +662,7 @@ class Parser:
             TokenType.RSHIFT_ASSIGN,
             TokenType.URSHIFT_ASSIGN,
         ):
+            self._require_reference(expr, "Invalid assignment target")
             op = self._advance().value
             right = self._parse_assignment_expression(exclude_in)
             return AssignmentExpression(op, expr, right)
@@ -806,6 +816,7 @@ class Parser:
             TokenType.RSHIFT_ASSIGN,
             TokenType.URSHIFT_ASSIGN,
         ):
+            self._require_reference(left, "Invalid assignment target")
             op = self._advance().value
             right = self._parse_assignment_expression(exclude_in)
             left = AssignmentExpression(op, left, right)
@@ -958,6 +969,12 @@ class Parser:
         if self._check(TokenType.PLUSPLUS, TokenType.MINUSMINUS):
             op_token = self._advance()
             argument = self._parse_unary_expression()
+            if not isinstance(argument, (Identifier, MemberExpression)):
+                raise JSSyntaxError(
+                    "Invalid operand of prefix " + op_token.value,
+                    op_token.line,
+                    op_token.column,
+                )
             return UpdateExpression(op_token.value, argument, prefix=True)
 
         return self._parse_postfix_expression()
@@ -993,6 +1010,7 @@ class Parser:
                 expr = CallExpression(expr, args)
             elif self._check(TokenType.PLUSPLUS, TokenType.MINUSMINUS):
                 # Postfix increment/decrement
+                self._require_reference(expr, "Invalid operand of postfix operator")
                 op = self._advance().value
                 expr = UpdateExpression(op, expr, prefix=False)
             else:
